@@ -101,7 +101,7 @@ def worker_job(job):
         for k, v in r.witness.items():
             out["witness"][k] = out["witness"].get(k, 0) + v
         stack.extend(r.alternatives)
-        if r.status in ("abort", "budget", "diverged"):
+        if r.status in ("abort", "budget", "diverged", "harness-exception"):
             out["aborts"][f"{r.status}:{r.label}"] = out["aborts"].get(f"{r.status}:{r.label}", 0) + 1
         if r.status == "violation" or r.findings:
             # replay concretely on the real code, with plain numbers
